@@ -232,6 +232,7 @@ ENGINES["map_map_mv"]["configs"]["quick"] += [mapcfg("map_map_mv_s_inner.cfg", 1
 # ---- shapes beyond 3 replicas / depth 2 (found missing by the hard-mode seeds) -------------------------
 ENGINES["orswot"]["configs"]["quick"] += [orcfg("orswot_s_4adders.cfg"),      # four actors witness one member, deliveries + merges among 4 replicas
                                           orcfg("orswot_s_samectx4m.cfg")]    # same-context removes, 4 replicas, WITH merge transitions (hybrid)
+ENGINES["map_mv"]["configs"]["quick"] += [mapcfg("map_mv_s_3keys.cfg", 1, 3), mapcfg("map_mv_s_newer.cfg", 1, 2)]   # multi-key pending removes
 ENGINES["list"]["configs"]["quick"] += [{"cfg": "list_s_deep.cfg", "module": "MC_List.tla", "flags": ["--persist"], "invariants": INV_LIST}]   # identifiers of depth 3
 ENGINES["ident"]["configs"]["quick"] += [{"cfg": "ident_q3.cfg", "module": "MC_Ident.tla", "vectors": True, "invariants": ["OrderOK", "DenseOK"]}]
 ENGINES["clocks"]["configs"]["quick"] += [{"cfg": "clocks_q4.cfg", "module": "MC_Clocks.tla", "vectors": True, "invariants": ["OrderOK", "LatticeOK", "ForgetOK", "DotOK"]}]
